@@ -447,13 +447,27 @@ def call_np(I, name, args, kwargs, node, fr):
         return Top("take_along_axis")
     if name in ("concatenate", "vstack", "hstack", "stack"):
         return do_concat(I, name, args, kwargs, node)
+    if name in ("split", "array_split", "hsplit", "vsplit"):
+        x = args[0] if args else Top()
+        sec = args[1] if len(args) > 1 else kwargs.get("indices_or_sections")
+        if isinstance(x, Arr) and x.axes:
+            axis = get_axis(args, kwargs, 2)
+            i = 0 if axis in (None, "unknown") else axis % len(x.axes)
+            if name == "split" and isinstance(sec, Num) and not (isinstance(sec.const, int) and sec.const == 1):
+                I.event("unequal-split", node, f"np.split({x!r}, {sec!r}) raises unless the number of sections divides the axis {x.axes[i]}; "
+                        f"np.array_split tolerates a remainder")
+            ax = list(x.axes)
+            ax[i] = Ax(f"sub({ax[i]})") if ax[i].symbolic else UNK
+            I.usage(node, name, x.axes[i], "positional")
+            return Lst(elem=Arr(ax, x.elem, x.space), length=dim_to_ax(sec) if isinstance(sec, Num) else UNK)
+        return Top(name)
     if name == "unique":
         x = args[0] if args else Top()
         if isinstance(x, Arr):
-            return Arr([UNK], x.elem, x.space)
+            return Arr([UNK], x.elem, x.space, frozenset({"unique"}))
         if isinstance(x, Lst):
             e = x.element()
-            return Arr([UNK], getattr(e, "kind", "f"), getattr(e, "space", None))
+            return Arr([UNK], getattr(e, "kind", "f"), getattr(e, "space", None), frozenset({"unique"}))
         return Top("unique")
     if name == "setxor1d" or name == "setdiff1d" or name == "intersect1d" or name == "union1d":
         a = args[0] if args else Top()
